@@ -33,10 +33,14 @@ def make_judge(res):
     )
 
 
-def profile():
+def profile(h=0):
     p = Profile(update=0, update_all=0, remove=40, remove_all=3, drop_measurement=8, insert=30, insert_multiple=6, reindex=6, reopen=4)
     p.getter_probes = True
     p.n_random_probes = 3
+    if h % 8 == 5:
+        p.max_rows = 45
+        p.max_time_probes = 30
+        p.min_ops, p.max_ops = 4, 10
     return p
 
 
@@ -53,7 +57,7 @@ def run(res, tier, seed, shard, nshards):
         for ci, cfg in enumerate(CONFIGS):
             for h in range(N_HIST[tier]):
                 rng = rng_for("C02", tier, seed, shard, ci, h)
-                s = NoMatchRunner(res, cfg, scratch, rng, profile(), judge).run()
+                s = NoMatchRunner(res, cfg, scratch, rng, profile(h), judge).run()
                 if h == 0 and shard == 0 and ci in (1, 2):
                     res.sample({"config": cfg_name(cfg), "first_ops": s.log[:5]})
     for b in contracts.drain(res):
@@ -67,6 +71,7 @@ def run(res, tier, seed, shard, nshards):
     res.require("removal.selects_none")
     res.require("removal.selects_all")
     res.require("later_reads")
+    res.require("histories_big")
     res.require("nomatch_bytes_checked")
     res.assumptions += [
         "histories contain no updates, so a read that differs from the model after a removal (while a history-free twin "
